@@ -120,6 +120,23 @@ func mkComponent(wf *sp.Workflow, k *toks) *node {
 		g.InPort("in").From(nodes[up].out(upport))
 		n.outs["out"] = g.OutPort("out")
 		n.other = g
+	case "groups":
+		// a grouping component written against the public API: one carrier IP per group on "groups", the members of the group
+		// delivered on the sub-stream port every FileIP is created with, delay ms after the carrier was sent (each group by a
+		// goroutine of its own), then that port is closed.   COMP groups name ngroups { carrier delay nmembers member... }
+		ng := k.int()
+		gs := []group{}
+		for i := 0; i < ng; i++ {
+			g := group{carrier: k.str(), delay: k.int()}
+			nm := k.int()
+			for j := 0; j < nm; j++ {
+				g.members = append(g.members, k.str())
+			}
+			gs = append(gs, g)
+		}
+		c := newGrouper(wf, name, gs)
+		n.outs["groups"] = c.OutPort("groups")
+		n.other = c
 	case "pairgen":
 		// a component written against the public API that emits, in lock-step, a parameter value on "out" (parameter
 		// port) and a file on "out" (file port): v0, f0, v1, f1, ...
@@ -156,6 +173,46 @@ func (g *pacer) Run() {
 		}
 		g.OutPort("out").Send(ip)
 		i++
+	}
+}
+
+type group struct {
+	carrier string
+	delay   int
+	members []string
+}
+
+type grouper struct {
+	sp.BaseProcess
+	groups []group
+}
+
+func newGrouper(wf *sp.Workflow, name string, gs []group) *grouper {
+	g := &grouper{BaseProcess: sp.NewBaseProcess(wf, name), groups: gs}
+	g.InitOutPort(g, "groups")
+	wf.AddProc(g)
+	return g
+}
+
+func (g *grouper) Run() {
+	defer g.CloseAllOutPorts()
+	for _, gr := range g.groups {
+		carrier, err := sp.NewFileIP(gr.carrier)
+		if err != nil {
+			g.Fail(err)
+		}
+		g.OutPort("groups").Send(carrier)
+		go func(gr group, carrier *sp.FileIP) {
+			time.Sleep(time.Duration(gr.delay) * time.Millisecond)
+			for _, m := range gr.members {
+				ip, err := sp.NewFileIP(m)
+				if err != nil {
+					g.Fail(err)
+				}
+				carrier.SubStream.Send(ip)
+			}
+			close(carrier.SubStream.Chan)
+		}(gr, carrier)
 	}
 }
 
